@@ -2,11 +2,16 @@
 EXTENDS Rpm, TLC
 CONSTANT MaxSteps
 Init == RInit
-Next == steps < MaxSteps /\ ((\E k \in Keys : Sign(k)) \/ Clear \/ SignFail \/ Reparse \/ TamperHeader \/ TamperPayload)
+Next == steps < MaxSteps /\ ((\E k \in Keys : Sign(k)) \/ Clear \/ SignFail \/ Reparse \/ TamperHeader \/ TamperPayload \/ TamperRecDigest \/ TamperSigBlob)
 Spec == Init /\ [][Next]_rvars
 \* a payload tamper is never healed; a header tamper is healed exactly by re-signing / clearing
 PayloadStays == [][payDirty => payDirty']_rvars
 \* only an alteration of the written header makes the recorded header digest untrue, and every completed
 \* sign / clear makes it true again; a failed signing operation changes nothing
 DigestKept == [][(HdrDigestTrue /\ ~HdrDigestTrue') => steps' = steps + 1 /\ signer' = signer /\ payDirty' = payDirty]_rvars
+\* the signature header is repaired only by being rebuilt (Sign / Clear), and a rebuild also makes the recorded
+\* header digest true; nothing else clears recDirty or sigDirty
+RebuiltOnly == [][((recDirty /\ ~recDirty') \/ (sigDirty /\ ~sigDirty')) => (~hdrDirty' /\ ~recDirty' /\ ~sigDirty' /\ payDirty' = payDirty)]_rvars
+\* tampering with the signature header never changes what the main header or payload digests say
+SigTamperLocal == [][(recDirty' # recDirty /\ recDirty') \/ (sigDirty' # sigDirty /\ sigDirty') => (hdrDirty' = hdrDirty /\ payDirty' = payDirty /\ signer' = signer)]_rvars
 =============================================================================
